@@ -250,7 +250,11 @@ class PiecewiseConstantBirthDeath(Distribution):
     def log_prob(self, node_heights: torch.Tensor):
         taxa_shape = node_heights.shape[:-1] + (int((node_heights.shape[-1] + 1) / 2),)
         tip_heights = node_heights[..., : taxa_shape[-1]]
-        serially_sampled = torch.any(tip_heights > 0.0)
+        # tips that are not sampled at a rho-sampling event are psi-sampled: also the
+        # tips at the present when there is no sampling at the present
+        serially_sampled = bool(torch.any(tip_heights > 0.0)) or not bool(
+            torch.any(self.rho[..., -1:] > 0.0)
+        )
 
         m = max(self.lambda_.shape[-1], self.mu.shape[-1])
 
